@@ -20,7 +20,7 @@ from pyvc.explore import explore, prove
 from pyvc.interp import Interp, PathState
 from pyvc.values import ListObj, Num, Obj, OutOfSubset, PyRaise, SymList, zarith
 
-from .common import REPO, Result, run_venv
+from .common import REPO, Result, run_venv, tierb_json
 
 
 def _valid(ps, goal):
@@ -133,7 +133,7 @@ def run(tier: str, seed: int) -> int:
     if p.returncode not in (0, 1):
         R.engine_errors.append("tier-B failed: " + p.stderr[-300:])
     else:
-        bounded = json.loads(p.stdout)
+        bounded = tierb_json(p, R)
         for f in bounded.get("failures", [])[:6]:
             R.violation(f"bounded check on real code: {f['clause']}: {f['detail'][:300]}", {"failure": f}, True)
     R.level = "other"
